@@ -232,7 +232,8 @@ def run_mc(cfg_text, workdir, tag, workers=8, timeout=3000, module="MC.tla"):
     res["violated"] = v.group(1) if v else None
     res["ok"] = ("No error has been found" in out)
     if not res["ok"] and not v:
-        raise ToolError("TLC model checking failed:\n" + out[-3000:])
+        m2 = re.search(r"(Error: .*?)(?:Error: The behavior|The coverage statistics|$)", out, re.S)
+        raise ToolError("TLC model checking failed:\n" + (m2.group(1)[:2000] if m2 else out[-2000:]))
     return res
 
 
